@@ -571,8 +571,15 @@ class DomainLowerer(FragmentTransformer, ValueTransformer, StatementTransformer)
         return domain.rst
 
     def on_fragment(self, fragment):
-        self.domains = fragment.domains
-        return super().on_fragment(fragment)
+        # Subfragments are visited before the statements of the fragment itself; restore the scope
+        # afterwards so that `ClockSignal()` and `ResetSignal()` used by this fragment refer to
+        # the domains visible in this fragment, not to those of its last visited descendant (which
+        # may define a domain of its own under the same name).
+        old_domains, self.domains = self.domains, fragment.domains
+        try:
+            return super().on_fragment(fragment)
+        finally:
+            self.domains = old_domains
 
 
 class LHSMaskCollector:
